@@ -36,6 +36,16 @@ DESCR = {
     "C18-m2": ("trend removed after normalising", "trend + non-identity normaliser", ""),
     "C19-m1": ("mean told to the array function ignores `process`", "process=False, keep_mean=False, mean≠0", "C19 wrapper job added after a look at the change's site (the array-level jobs cannot see it)"),
     "C19-m2": ("'equal' thresholds use the variance as scale of norm.ppf", "thresholds='equal', var≠1, ≥3 values", ""),
+    "C02-m1": ("JBessel shape bounds computed from spatial_dim instead of dim", "temporal or lat-lon model, nu between the two thresholds", "C02 guard configurations space+time / lat-lon added after a look at the site (plain dims could not see it)"),
+    "C02-m2": ("TPL correlation superposition evaluates the upper term at len_rescaled instead of len_up_rescaled", "len_low>0", "caught by C04 (spectral density vs correlation superposition)"),
+    "C10-m1": ("a fixed value of 0 is treated as the flag False", "nugget=0.0 (or len_low=0.0) fixed while the model holds another value", "the truth value of a symbolic number now forks the path (it was silently True); caught after that"),
+    "C10-m2": ("a non-fitted variance is restored in the closure only if len_scale is fitted", "model whose variance follows a fitted optional argument (TPL), var and len_scale not fitted", "C10 'variance follows a parameter' model added after the miss; this also exposed defect D10 on the clean tree"),
+    "C05-m3": ("return_var=False path multiplies only the data block of the inverse", "return_var=False with an unbiased / drift variant", "return_var=False obligation added (the harness only used return_var=True)"),
+    "C05-m4": ("generated drift monomials close over the loop variable (all equal the last)", "named / ordered drift with more than one monomial", ""),
+    "C12-m3": ("matrix_derotate walks the planes reversed with the sign index of the reversed enumeration", "dim 4 or 5 with a non-zero angle", ""),
+    "C12-m4": ("too-short len_scale list padded with ones in front instead of repeating the last value", "len_scale list with 2 <= len < dim", ""),
+    "C18-m3": ("Normalizer.derivative validates against denormalize_range", "normalizer whose two ranges differ, data between them", ""),
+    "C18-m4": ("prepared kriging conditions cached and only reset by set_condition", "call, then mean= / trend= / normalizer= on the Krige object, call again", "C07 Krige-level setter histories added after a look at the site"),
     "C20-m1": ("asarray instead of array before in-place detrending", "check_shape=False path with float input", ""),
     "C20-m2": ("bin edges converted to radians in place", "latlon, caller's float array", ""),
 }
